@@ -76,7 +76,10 @@ def r_thermal(p, seed=0):
     for lang in ("C", "Py"):
         # a tiny cutoff keeps rounding-noise "frequencies" of the acoustic modes at Gamma (|f| ~ 1e-8 THz) out of the sums:
         # for them kT ln(1-exp(-x)) is ill-conditioned and libm/numpy differ by 1 ulp in exp
-        tp = ThermalProperties(ph.mesh, cutoff_frequency=p.get("cutoff", 1e-4))
+        cut = p.get("cutoff", 1e-4)
+        if cut == "at-mode":  # a cutoff that coincides with a mode frequency: the mode is excluded ("> cutoff") in both languages
+            cut = float(np.sort(ph.mesh.frequencies.ravel())[ph.mesh.frequencies.size // 3])
+        tp = ThermalProperties(ph.mesh, cutoff_frequency=cut)
         tp.temperatures = np.array([0.0, 50.0, 300.0, 1000.0])
         tp.run(lang=lang)
         outs.append(np.array(tp.thermal_properties[1:]))
@@ -239,7 +242,9 @@ def r_gonzedd(p, seed=0):
     dq0 = np.array(dm._dd_q0)
     tol = dm.Q_DIRECTION_TOLERANCE
     worst = 0.0
-    for q_red, qdir in (([0.11, 0.23, -0.31], None), ([0.5, 0.0, 0.0], None), ([0.0, 0.0, 0.0], [0.3, -0.2, 0.5]), ([0.0, 0.0, 0.0], None)):
+    for q_red, qdir in (([0.11, 0.23, -0.31], None), ([0.5, 0.0, 0.0], None), ([0.0, 0.0, 0.0], [0.3, -0.2, 0.5]), ([0.0, 0.0, 0.0], None),
+                        # close to, but not on, a reciprocal lattice point: |G+q| between the q->0 length tolerance and its square root
+                        ([0.004, 0.0, 0.0], None), ([1.002, 0.0, -0.003], None), ([0.0, -0.0007, 0.0005], None), ([0.003, 0.002, -1.001], [1.0, 0.0, 0.0])):
         rec = np.linalg.inv(np.asarray(ph.primitive.cell))
         qc = rec @ np.array(q_red, float)
         dc = None if qdir is None else rec @ np.array(qdir, float)
@@ -281,6 +286,8 @@ def matrix(tier):
     for mesh in ([3, 2, 2], [2, 2, 2], [5, 3, 4], [1, 1, 1]):
         out.append(("thermal", {"xtal": "NaCl-prim-2", "S": S1, "mesh": mesh}))
     out.append(("thermal", {"xtal": "tri-P1-3", "S": S1, "mesh": [3, 2, 2], "meshsym": False, "cutoff": 1.0}))
+    out.append(("thermal", {"xtal": "tri-P1-3", "S": S1, "mesh": [3, 2, 2], "meshsym": False, "cutoff": "at-mode"}))
+    out.append(("thermal", {"xtal": "NaCl-prim-2", "S": S1, "mesh": [3, 3, 3], "cutoff": "at-mode"}))
     for xt in ("tri-P1-3", "hcp-2", "sc-1", "rhomb-prim-1", "mono-P21-2", "bct-conv-2"):
         out.append(("thm", {"xtal": xt, "mesh": [3, 2, 2]}))
     for mesh in ([3, 2, 2], [5, 3, 4], [3, 4, 2], [2, 3, 5], [4, 4, 4]):
